@@ -122,6 +122,8 @@ theorem parsePlain_numbered (p : Parsed) (h : fragNumbered p = true) :
     parsePlain (fmtPlain p) = some p := by
   obtain ⟨path, kind, digits, code⟩ := p
   unfold fragNumbered at h
+  -- the fragment is stated with the documented bounds; the first regex has the regenerated ones
+  rw [← extMinNum_eq, ← extMaxNum_eq] at h
   cases digits with
   | none => simp at h
   | some ds =>
@@ -138,7 +140,7 @@ theorem parsePlain_numbered (p : Parsed) (h : fragNumbered p = true) :
       · simpa [Variant.pathOk] using hpath
       · exact parseSep_numbered _ s kind ds code hkos hds hcode
       · intro u' v' heq hlen ⟨hP, hQ⟩
-        have hP' : extPathOk Generated.Grep.extMin Generated.Grep.extMax u' = true := by
+        have hP' : extPathOk Generated.Grep.extMinNum Generated.Grep.extMaxNum u' = true := by
           simpa [Variant.pathOk] using hP
         have hQ' : ∃ r, parseSep true v' = some r := by
           simpa [Variant.requireNum, Option.isSome_iff_exists] using hQ
@@ -156,7 +158,7 @@ theorem parsePlain_numbered (p : Parsed) (h : fragNumbered p = true) :
             · subst hs
               exact numbered_hmax_colon hpath hcolon' hds hP' hw0.symm
             · have hkm : kind ≠ .match_ := fun hh => hs (hms.mp hh)
-              have hl : hasNumLookAlike Generated.Grep.extMax code = false := by
+              have hl : hasNumLookAlike Generated.Grep.extMaxNum code = false := by
                 simpa [hkm] using hlook
               exact numbered_hmax_other hsc hds hl hP' (by decide) hQ' hw0.symm
         · subst ha1; simp at hlen; omega
